@@ -1,7 +1,4 @@
-mod c03;
-mod c12;
-mod c16;
-mod common;
+use rtcheck::{c03, c12, c16, common};
 
 fn main() {
     let argv: Vec<String> = std::env::args().collect();
